@@ -24,6 +24,7 @@ type pkMon struct {
 	trace    []string
 	prev     *pkSnap
 	released map[string]int // packet uid -> number of releases observed
+	escrowShort bool        // the total-escrow counter is below the escrowed balances (reported once per episode)
 }
 
 func newPkMon(h *pkH, r *Run) *pkMon { return &pkMon{h: h, r: r, released: map[string]int{}} }
@@ -207,7 +208,7 @@ func (m *pkMon) check(op, res string, cur *pkSnap) {
 	kind := f[0]
 	prop := "C05"
 	switch kind {
-	case "recv", "ack", "timeout", "fin", "finkey", "send", "fork", "epoch", "block", "state", "finstate":
+	case "recv", "ack", "timeout", "timeoutclose", "fin", "finkey", "send", "sendblk", "fork", "epoch", "block", "state", "finstate":
 		prop = "C04"
 	}
 	// a rejected message changes nothing
@@ -219,8 +220,15 @@ func (m *pkMon) check(op, res string, cur *pkSnap) {
 		}
 	}
 	if res == "hookfail" || res == "blockfail" || res == "panic" {
-		m.violate(prop+"/hook/"+kind+"-failed", fmt.Sprintf("%s: %v", res, m.h.lastErr))
+		sig := prop + "/hook/" + kind + "-failed"
+		if res == "panic" && m.h.lastErr != nil && strings.Contains(m.h.lastErr.Error(), "negative coin amount") && m.escrowShort {
+			// ibc-go's unescrowToken subtracts from the per-denom total-escrow counter with Coin.Sub: it panics
+			// when the counter is below the amount although the escrow account holds the coins
+			sig = "C04/escrow/unescrow-panics-total-escrow-counter-underflow"
+		}
+		m.violate(sig, fmt.Sprintf("%s: %v", res, m.h.lastErr))
 	}
+	m.checkTotalEscrow(op)
 
 	// ---- C04: a pending packet stays stored and pending (same key, same contents up to the beneficiary
 	// rewrite of a fulfilment) through every op except its own accepted finalization and a fork in range
@@ -387,6 +395,28 @@ func (m *pkMon) check(op, res string, cur *pkSnap) {
 			}
 		}
 	}
+}
+
+// checkTotalEscrow: ibc-go keeps, per denom, the total amount held in ALL transfer escrow accounts
+// (TotalEscrowForDenom); unescrowing subtracts from it with Coin.Sub, which panics below zero.  The counter
+// must never be below what the escrow accounts of the harness' channels hold.
+func (m *pkMon) checkTotalEscrow(op string) {
+	app, ctx := m.h.f.App, m.h.f.Ctx
+	short := false
+	for di, d := range m.h.denoms {
+		sum := math.ZeroInt()
+		for _, c := range m.h.chans {
+			sum = sum.Add(app.BankKeeper.GetBalance(ctx, transfertypes.GetEscrowAddress(pkPort, c.Hub), d).Amount)
+		}
+		if tot := app.TransferKeeper.GetTotalEscrowForDenom(ctx, d).Amount; tot.LT(sum) {
+			short = true
+			if !m.escrowShort {
+				m.violate("C04/escrow/total-escrow-counter-below-escrowed-balance",
+					fmt.Sprintf("after `%s`: TotalEscrowForDenom(d%d) = %s, the channel escrow accounts hold %s", op, di, tot, sum))
+			}
+		}
+	}
+	m.escrowShort = short
 }
 
 // checkFork: what OnHardFork(rollapp ri, lastValid lv) must have done to packets, receipts,
